@@ -572,7 +572,15 @@ func genHostileName(rt *rapid.T) string {
 		return " from " + a + " port " + genPort(rt, l+".p")
 	}
 	var s string
-	switch rapid.IntRange(0, 10).Draw(rt, "nk") {
+	switch rapid.IntRange(0, 11).Draw(rt, "nk") {
+	case 9:
+		// long names, up to sshd's %.100s truncation
+		n := rapid.IntRange(80, 100).Draw(rt, "longn")
+		s = genStringOf(rt, "long", []rune("abcdefghijklmnopqrstuvwxyz0123456789_-. "), n, n)
+		if rapid.Bool().Draw(rt, "longfrom") {
+			frag := " from 6.6.6.6 port 1 xx"
+			s = s[:n-len(frag)] + frag
+		}
 	case 10:
 		// a whole sshd message of another form as the "name"
 		switch rapid.IntRange(0, 3).Draw(rt, "emb") {
